@@ -10,7 +10,7 @@ LEVEL = 'exploration'
 
 
 def sizes(ctx):
-    return dict(cases=36, inputs=16) if ctx.tier == 'quick' else dict(cases=400, inputs=60)
+    return dict(cases=36, enum_cases=16, inputs=16) if ctx.tier == 'quick' else dict(cases=400, enum_cases=160, inputs=60)
 
 
 def sugar_stats(prog):
@@ -68,8 +68,9 @@ def gen_cases(ctx):
     sz = sizes(ctx)
     cases = []
     n = 0
-    while n < sz['cases']:
+    while n < sz['cases'] + sz['enum_cases']:
         rng = random.Random(ctx.rng.getrandbits(48))
+        enum = n >= sz['cases']
         cfg = G2.default_cfg(lattices=rng.random() < 0.3, neg=True, agg=rng.random() < 0.3, p_neg=0.3)
         cfg.dom = dom = rng.choice([3, 4, 5])
         cfg.n_rels, cfg.n_rules = (3, 6), (3, 8)
@@ -77,7 +78,12 @@ def gen_cases(ctx):
         cfg.p_two_heads = 0.3
         cfg.p_fact = 0.15
         # programs come from the positive generator with disjunctions (gen.py) or the stratified one (gen2.py)
-        if rng.random() < 0.5:
+        if enum:
+            # rule shapes `[binder]? cl1, cl2` sampled from the complete shape space (repeated variables, constants and wildcards in
+            # either clause, bound by the other clause or not), on inputs with size ratios on both sides of the run-time join reordering
+            cfg.dom = dom = rng.choice([3, 4])
+            prog, input_rels, _ = G.enumerated_program(rng, nrules=12, dom=dom)
+        elif rng.random() < 0.5:
             prog, input_rels = G.gen_positive_program(rng, cfg)
         else:
             prog, input_rels = G2.gen_program(rng, cfg)
@@ -95,10 +101,10 @@ def gen_cases(ctx):
             p1, _ = X.expand_program(prog, opts)
             if p1.text() != prog.text() and not G.check_scoping(p1):
                 vs.append(E.Variant('only_' + key, p1, 'ascent'))
-        case = P.Case('c%d' % n, prog, vs, meta={'kind': 'sugar', 'sugar': sugar_stats(prog), 'facts_moved_to_input': len(facts)})
+        case = P.Case('c%d' % n, prog, vs, meta={'kind': 'enumerated' if enum else 'sugar', 'sugar': sugar_stats(prog), 'facts_moved_to_input': len(facts)})
         loadable = [r.name for r in prog.rels]
         for ii in range(sz['inputs']):
-            rows = G.gen_input(rng, prog, input_rels if rng.random() < 0.6 else loadable, dom)
+            rows = G.enumerated_input(rng, dom) if enum else G.gen_input(rng, prog, input_rels if rng.random() < 0.6 else loadable, dom)
             seen, uniq = set(), []
             for r in rows:
                 if r not in seen:
@@ -121,7 +127,7 @@ def run(ctx, only=None):
     ctx.rule = ('each case = a sugared program, its full hand expansion into the documented core forms (disjunction -> one rule per choice of disjuncts, nested ones '
                 'flattened; ?pattern -> fresh variable + if-let; repeated variable / constant / expression argument -> fresh variable + equality test; _ -> fresh variable; '
                 '!r -> agg () = not() in r; n heads -> n rules; body-less rule -> fact in the input) and one partial expansion per sugar kind, all run on the same inputs and '
-                'compared with the reference of the sugared program. non-trivial = reference non-trivial; distinct = distinct (variant text, input)')
+                'compared with the reference of the sugared program; a share of the programs is made of rule shapes `[let|for binder]? cl1, cl2` sampled from the enumerated shape space (vgen/gen.py rule_shape_space) on inputs with size ratios on both sides of the run-time join reordering. non-trivial = reference non-trivial; distinct = distinct (variant text, input)')
     ctx.assumptions = ['reference evaluator', 'the expander vgen/xform.py implements the documented meaning (independent of ascent_syntax.rs)']
     tot = {}
     for c in cases:
